@@ -31,7 +31,7 @@ def tokens(t):
         c = t[1]
         x = lambda v: "~" if v is None else ("t" if v is True else ("f" if v is False else str(v)))
         return f"I {_o(c.get('min'))} {_o(c.get('max'))} {x(c.get('xmin'))} {x(c.get('xmax'))} {_o(c.get('mult'))}"
-    if k in ("N", "B", "Z"):
+    if k in ("N", "B", "Z", "Y"):
         return k
     if k == "S":
         return f"S {_o(t[1])} {_o(t[2])}"
@@ -59,6 +59,8 @@ def json_tokens(v):
         return "f"
     if isinstance(v, int):
         return f"i {v}"
+    if isinstance(v, float):
+        return f"d {int(round(v * 2))}"
     if isinstance(v, str):
         return "s " + enc(v)
     if isinstance(v, list):
@@ -99,6 +101,8 @@ def to_jsonschema(t):
         return {"type": "boolean"}
     if k == "Z":
         return {"type": "null"}
+    if k == "Y":
+        return {}
     if k == "E":
         return {"type": "string", "enum": list(t[1])}
     if k == "?":
@@ -440,6 +444,12 @@ def canon_module(text, root="Root"):
                 return ["bool"]
             if nm == "Any":
                 return ["any"]
+            if nm in classes:
+                return class_ty(classes[nm])
+            if nm in ("List", "list", "Sequence"):
+                return ["list", None, None, ["any"]]
+            if nm in ("Dict", "dict", "Mapping"):
+                return ["dict", ["any"]]
             special = {"PositiveInt": ("gt", 0), "NegativeInt": ("lt", 0), "NonNegativeInt": ("ge", 0), "NonPositiveInt": ("le", 0)}
             if nm in special:
                 return apply_kw(["int", None, None, None, None, None], {special[nm][0]: special[nm][1]})
@@ -614,3 +624,35 @@ def show(t):
         return f"(model {int(t[1])}" + "".join(
             f" (f {show_name(py)} {show_name(al) if al is not None else '~'} {int(req)} {int(null)} {show(ty)})" for py, al, req, null, ty in t[2]) + ")"
     raise ValueError(k)
+
+
+def term_of_genson(s):
+    """a schema as the genson package prints it -> term (a type list is read as the union of its members, null making it optional)"""
+    if not s:
+        return ("Y",)
+    if "anyOf" in s:
+        return ("U", [term_of_genson(a) for a in s["anyOf"]])
+    t = s.get("type")
+    if isinstance(t, list):
+        nn = [x for x in t if x != "null"]
+        parts = [term_of_genson(dict(s, type=x)) for x in nn]
+        base = parts[0] if len(parts) == 1 else ("U", parts)
+        return ("?", base) if len(nn) != len(t) else base
+    if t == "integer":
+        return ("I", {})
+    if t == "number":
+        return ("N",)
+    if t == "string":
+        return ("S", None, None)
+    if t == "boolean":
+        return ("B",)
+    if t == "null":
+        return ("Z",)
+    if t == "array":
+        return ("A", term_of_genson(s.get("items", {})), None, None)
+    if t == "object":
+        if not s.get("properties"):
+            return ("M", ("Y",))
+        req = set(s.get("required", []))
+        return ("J", [(k, k in req, term_of_genson(v)) for k, v in s["properties"].items()], False)
+    raise ValueError(s)
